@@ -739,8 +739,11 @@ mod sync {
             pub fn new() -> Self {
                 #[cfg(any(feature="rt_tokio", feature="rt_async-std", feature="rt_smol", feature="rt_nio"))]
                 ::ctrlc::set_handler(|| {
+                    #[cfg(ohkami_verif)] crate::__verif__::sched_point("sig:entry");
                     CATCH.store(true, Ordering::SeqCst);
+                    #[cfg(ohkami_verif)] crate::__verif__::sched_point("sig:stored");
                     let waker = WAKER.swap(null_mut(), Ordering::SeqCst);
+                    #[cfg(ohkami_verif)] crate::__verif__::sched_point("sig:swapped");
                     if !waker.is_null() {
                         unsafe {Box::from_raw(waker)}.wake();
                     }
@@ -768,12 +771,14 @@ mod sync {
 
                     #[inline]
                     fn poll(self: Pin<&mut Self>, cx: &mut Context<'_>) -> Poll<Self::Output> {
+                        #[cfg(ohkami_verif)] crate::__verif__::sched_point("poll:entry");
                         match unsafe {Pin::new_unchecked(&mut self.get_unchecked_mut().0)}.poll(cx) {
                             Poll::Ready(t) => Poll::Ready(Some(t)),
                             Poll::Pending  => if CATCH.load(Ordering::SeqCst) {
                                 crate::DEBUG!("[CtrlC::catch] Ready");
                                 Poll::Ready(None)
                             } else {
+                                #[cfg(ohkami_verif)] crate::__verif__::sched_point("poll:checked");
                                 #[cfg(any(feature="rt_tokio", feature="rt_async-std", feature="rt_smol", feature="rt_nio"))] {
                                     let prev_waker = WAKER.swap(
                                         Box::into_raw(Box::new(cx.waker().clone())),
@@ -792,6 +797,7 @@ mod sync {
                                         None       => lock.push((current_id, current_waker)),
                                     }
                                 }
+                                #[cfg(ohkami_verif)] crate::__verif__::sched_point("poll:published");
                                 Poll::Pending
                             }
                         }
